@@ -36,6 +36,12 @@ namespace rkcommon {
           initTaskSystemInternal(-1);
 
         g_ts->AddTaskSetToPipe(task);
+
+        // With a single tasking thread there is no worker that could pick up
+        // the task: run what is queued on the calling thread, as the Debug
+        // (serial) backend does
+        if (g_ts->GetNumTaskThreads() <= 1)
+          g_ts->WaitforAll();
       }
 
       void waitInternal(Task *task)
